@@ -706,7 +706,10 @@ class Gen:
             if op in "/%":
                 lo, hi = int_range(t)
                 d = r.choice([1, 2, 3, 5, 7, 10, 16, hi]) if r.random() < 0.8 else max(1, abs(self.boundary(t)))
-                rr = ("lit", ty, min(d, hi))
+                d = min(d, hi)
+                if is_signed(t) and r.random() < 0.3:
+                    d = -d          # MIN / -1 is caught by the reference interpreter and the program discarded
+                rr = ("lit", ty, d)
             else:
                 rr = self.gen_expr(env, ty, depth - 1, const)
             self.hit("bin:%s:%s" % (t, op))
